@@ -1,7 +1,38 @@
-HOOK_COMMITS = []
-NYB = 'check not yet built in this revision (planned in DESIGN.md); not claimed until a solver-decided check exists'
-CLAIMS['C19'] = ('Bounded model checking of the real terminal codec (terminal.h) with every input symbolic at full machine width: all 2^64 long '
-                 'values, all non-NaN float bit patterns, both booleans; round trip, injectivity, unique zero handle, overflow rejection.', 'DESIGN.md §4 C19')
-for p in ['C01','C02','C03','C04','C05','C06','C07','C08','C09','C10','C11','C12','C13','C15','C16','C17','C18','C20']:
-    NA[p] = NYB
+HOOK_COMMITS = ['d72f86d (H1 small arena for memory managers)', '62f5160 (H5 node header start size)', 'b191b11 (H6 hash_stream word log)']
+L3 = ('needs whole-library execution (initialize, real forests, operations, compute tables). Measured: the ll2c+CBMC encoding of the whole library '
+      '(578-705 functions after pruning) does not get through symbolic execution of library/forest set-up within 50 min (registries and tables of '
+      '1024 entries, libstdc++ container code, imprecise virtual dispatch), see DESIGN.md 11.3; ')
+CLAIMS['C01'] = ('Bounded model checking of the mechanisms that make equality canonical, on the real code with symbolic node contents: (a) the real hash_stream is a fold '
+                 'over the pushed words; (b) unpacked-full, unpacked-sparse and packed forms of a node (level size 3, every shape, every storage option, MT and EV+) feed '
+                 'the same word sequence to the hash; (c) the duplicate test against packed storage is exact; (d) the per-variable unique table under a bounded symbolic '
+                 'history of find/add/remove with symbolic hashes and a symbolic equivalence relation, including expand/shrink rehashing. Not covered: normalisation and '
+                 'createReducedNode end to end, chains of operations (whole-library level).', 'DESIGN.md 11.2 C01')
+CLAIMS['C02'] = ('Bounded model checking of the pack/unpack codec of node storage (real storage/simple.cc, unpacked_node.cc, memory manager): for every shape of a node of a '
+                 'level of size 3 and every storage option, the FULL_ONLY, SPARSE_ONLY and FULL_OR_SPARSE views, getDownPtr and isSingletonNode return the stored child '
+                 'map (children and EV+ edge values symbolic), and all views hash identically. The forest-wide audit of the reduction rule after histories is not covered '
+                 '(whole-library level).', 'DESIGN.md 11.2 C02')
+CLAIMS['C05'] = ('Bounded model checking of the per-operation scalar policies instantiated from the real operations/arith_*.cc: for plus, minus, mult, div, mod, max, min, '
+                 'distmin on MT integer (all terminal values), MT real (all finite floats) and EV+ long (extended integers): apply() equals the scalar operation or raises the '
+                 'documented error; short-cut predicates (first/second argument, x op x) are consistent with apply(); commutes() implies symmetry. Recursion over nodes, '
+                 'comparisons, range queries and user maps are not covered (whole-library level). Findings: division/modulo/minus short cuts hide errors (known_findings.txt).',
+                 'DESIGN.md 11.2 C05')
+CLAIMS['C06'] = ('Bounded model checking of the reference-count storage: counter_array at every width with symbolic counts across the 255/256 and 65535/65536 transitions, '
+                 'address_array (32/64 bit), level_array, and node_headers under a bounded symbolic history of new/link/unlink/cache/uncache (optimistic and pessimistic) '
+                 'against a shadow model (delete exactly when specified, handle reuse only after recycling with zero counts). Recount over a whole forest is not covered.',
+                 'DESIGN.md 11.2 C06')
+CLAIMS['C16'] = ('Bounded model checking of the error paths reachable without a whole forest: constructor-time compatibility checks of binary operations on forest records '
+                 'with symbolic attributes (error code iff predicate false), VALUE_OVERFLOW of the terminal codec, DIVIDE_BY_ZERO / SUBTRACT_INFINITY / INFINITY_DIV_INFINITY of '
+                 'the scalar policies. State preservation after an error inside a recursion is not covered (whole-library level).', 'DESIGN.md 11.2 C16')
+CLAIMS['C18'] = ('Bounded model checking of the four slot-array memory managers (array+grid, original grid, heap, free lists) from the real initManager through every '
+                 'history of K request/recycle steps with symbolic sizes and victims (K=2 quick, K=3 thorough), against a shadow model: size, non-overlap, validity, contents '
+                 'of live chunks untouched; plus the bookkeeping of malloc_style. All CBMC pointer/bounds checks on.', 'DESIGN.md 11.2 C18')
+CLAIMS['C19'] = ('Bounded model checking of the real terminal codec (terminal.h) and of forest::getEdgeForValue/getValueForEdge with every input symbolic at full machine '
+                 'width: all 2^64 long values, all non-NaN float bit patterns, both booleans, +infinity; round trip, injectivity, unique zero handle, overflow rejection.',
+                 'DESIGN.md 11.2 C19')
+for p, why in [
+    ('C03', 'construction from minterms and evaluation'), ('C04', 'set operations over forests'), ('C07', 'compute tables inside operations (and ct_styles.cc fixes its table at 1024+ entries, no reachable small bound)'),
+    ('C08', 'reachability fixed points'), ('C09', 'image operations over relation nodes'), ('C10', 'copy between real forests'), ('C11', 'iterators and cardinality over real forests'),
+    ('C12', 'identical scripted histories under every policy combination'), ('C13', 'variable reordering of real forests'), ('C15', 'index-set conversion and lookup over real forests'),
+    ('C17', 'library/domain/forest lifecycles'), ('C20', 'saturation over partitioned relations')]:
+    NA[p] = L3 + 'no leaf kernel of this property (%s) is separable from that set-up, so no solver-decided check is claimed.' % why
 NA['C14'] = 'depends on libc/libstdc++ text formatting and parsing (fprintf/%e, istream) that cannot be encoded; stubbing it would assume the property'
